@@ -329,6 +329,26 @@ def const_value(node):
     return node.value
   if isinstance(node, ast.BinOp) and isinstance(node.op, ast.Add):
     return const_value(node.left) + const_value(node.right)
+  if isinstance(node, ast.BinOp) and isinstance(node.op, ast.Mod):
+    l, r = const_value(node.left), const_value(node.right)
+    if isinstance(l, str) and isinstance(r, (str, int, float, list)):
+      try:
+        return l % (tuple(r) if isinstance(r, list) else r)
+      except (TypeError, ValueError) as e:
+        raise AnalysisError('constant %%-format does not apply: %s (%s)' % (norm(node, 60), e))
+  if isinstance(node, ast.BinOp) and isinstance(node.op, ast.Mult):
+    l, r = const_value(node.left), const_value(node.right)
+    if isinstance(l, (str, list)) and isinstance(r, int) or isinstance(r, (str, list)) and isinstance(l, int):
+      return l * r
+  if isinstance(node, ast.Call) and call_tail(node) == 'format' and isinstance(node.func, ast.Attribute) \
+      and not any(k.arg is None for k in node.keywords):
+    recv = const_value(node.func.value)
+    if isinstance(recv, str):
+      try:
+        return recv.format(*[const_value(a) for a in node.args],
+                           **{k.arg: const_value(k.value) for k in node.keywords})
+      except (IndexError, KeyError, ValueError) as e:
+        raise AnalysisError('constant format does not apply: %s (%s)' % (norm(node, 60), e))
   if isinstance(node, ast.BinOp) and isinstance(node.op, ast.BitOr):
     l, r = const_value(node.left), const_value(node.right)
     if isinstance(l, (set, frozenset)) and isinstance(r, (set, frozenset)):
